@@ -15,3 +15,6 @@ import MdVerif.Props.C02Big
 #print axioms MdVerif.C02Big.C02_convertBig_never_err
 #print axioms MdVerif.C02Big.C02_convert_never_err
 #print axioms MdVerif.C02Big.C02_convert_ok_or_stack_fuel
+#print axioms MdVerif.C02Big.C02_blockStageX_noctl
+#print axioms MdVerif.C02Big.C02_convertXBig_total
+#print axioms MdVerif.C02Big.C02_convertXBig_refines
